@@ -2,6 +2,9 @@
 """Regenerates MANIFEST.json from the table below (kept in one place so it stays valid)."""
 import json, subprocess
 CHECKS = {
+ "C14": dict(level="exploration", tech="round-trip + bound oracle: real autonomi::self_encryption::encrypt, then a real Client (data_get_public / data_get) over a real client SwarmDriver whose kad get-record queries the harness answers from the produced chunks in FIFO / LIFO / random completion order; two builds (MAX_CHUNK_SIZE 1 MiB and 1 KiB) so that 1-4 data-map levels occur; addresses recomputed with an independent SHA3-256",
+             text="Lengths on and next to every size-class boundary (0..6, MAX, 3*MAX, k*MAX, data-map level thresholds) with five content classes are encrypted twice and fetched back; inputs < 3 bytes must be rejected, everything else must round-trip byte-identically, every chunk must be <= MAX_CHUNK_SIZE and addressed by its content hash, both encryptions must give the same data map and chunk set. Exploration is the right level: the input space is unbounded and the deciding step is an oracle over real executions.",
+             note="Honest holders (C15 covers substitution); multi-level maps are reached through self_encryption's compile-time MAX_CHUNK_SIZE knob; the +16-byte overshoot of full slices is a known finding in the external crate.", ref="DESIGN.md §4 C14"),
  "C05": dict(level="exploration", tech="history oracle over fabricated kad progress events fed to the real SwarmDriver handlers for real QueryIds, with 1-4 real callers (some cancelled) in Network::get_record_from_network; merges recomputed independently",
              text="Random reply sequences (distinct / duplicate / self responders, 1-3 content versions of four kinds, every terminal event, optional targets, all quorum settings) are delivered while callers attach before, between and after replies; each caller's outcome is judged against distinct-responder counts, target, deterministic merges, completeness of split outcomes and exactly-one-outcome.",
              note="Events are fabricated (the swarm is never polled); retry strategy None so one caller = one query outcome.", ref="DESIGN.md §4 C05"),
